@@ -301,10 +301,18 @@ func (e *Engine) cmdCheck(prop, tier, evid, known, replayDir string, replay bool
 		all = append(all, e.structuralObligations("len")...)
 		// Len and Pack agree field by field only if pack follows the same schema (which names take the compress flag)
 		all = append(all, e.layoutObligations([]string{"pack"})...)
+	case "C09":
+		// Truncate walks the sections with Len(rr): what len() counts per field, and that pack agrees on which names
+		// are compressed, is as much its business as Len's
+		all = append(all, e.structuralObligations("len")...)
+		all = append(all, e.layoutObligations([]string{"pack"})...)
 	case "C16":
 		all = append(all, e.structuralObligations("copy")...)
+		all = append(all, e.copyFieldObligations()...)
 	case "C20":
 		all = append(all, e.structuralObligations("isDuplicate")...)
+		// a record and its copy are duplicates only if the copy has every field
+		all = append(all, e.copyFieldObligations()...)
 	case "C10":
 		all = append(all, e.canonObligations()...)
 		all = append(all, e.algorithmTableObligations()...)
